@@ -16,7 +16,7 @@ META = {
     "bounds": {"quick": "<= 3 batches of <= 2 rows (total <= 4), N in {1,2}, T in {1,2} with symbolic non-decreasing integer "
                         "timestamps (gaps in [0,3]); sum/count/mean/var/size/value_counts, windowed groupby by column and by "
                         "streaming series (sum/count/mean/size/var)",
-               "thorough": "<= 3 batches of <= 3 rows (total <= 5), N up to 4, T up to 4"},
+               "thorough": "<= 3 batches of <= 2 rows (total <= 4) plus the larger-batch patterns, N up to 3, T up to 3, all sizes for every aggregation"},
     "outside": ["IEEE rounding", "std checked as var", "NaN inputs", "non-monotone indices", "cudf"],
     "stubs": DC.STUBS,
     "assumptions": ["timestamps are non-decreasing (as the statement assumes)",
@@ -93,9 +93,9 @@ def obligations(tier):
     q = tier == "quick"
     B = 400 if q else 2000
     obls = []
-    pats = length_patterns(3, 2, 4) if q else length_patterns(3, 3, 5)
-    Ns = (1, 2) if q else (1, 2, 3, 4)
-    Ts = (1, 2) if q else (1, 2, 3, 4)
+    pats = length_patterns(3, 2, 4)
+    Ns = (1, 2) if q else (1, 2, 3)
+    Ts = (1, 2) if q else (1, 2, 3)
     specs = []
     for N in Ns:
         for op in ("sum", "count", "mean", "var", "size", "value_counts"):
